@@ -350,10 +350,12 @@ func (p *asyncProducer) dispatcher() {
 				continue
 			}
 			p.inFlight.Add(1)
-		}
 
-		for _, interceptor := range p.conf.Producer.Interceptors {
-			msg.safelyApplyInterceptor(interceptor)
+			// apply the interceptors only on the first pass of a user-submitted
+			// message: never again on retry, never on internal marker messages
+			for _, interceptor := range p.conf.Producer.Interceptors {
+				msg.safelyApplyInterceptor(interceptor)
+			}
 		}
 
 		version := 1
